@@ -188,6 +188,10 @@ def build(sc):
         exp["statuses"] = {400, 413, 431, 501}
         exp["anything"] = True
         exp["label"] = m["mutation"]
+        # a near-miss can leave the message unterminated from the server's point of view (e.g. a bare CR as the
+        # last line terminator, an empty chunk-size line that shifts the framing): waiting for more input is then
+        # correct and bounded by the size limits; that such messages are refused once complete is C01's claim
+        exp["may_wait"] = True
     return stream, exp
 
 
@@ -248,7 +252,7 @@ def run_one(tapes, tier, scenario=None):
     if k.end_reason in ("step_cap", "livelock"):
         res.v("hang", shape, "the run did not settle: %s" % k.end_reason)
     elif not finals:
-        if exp["must_refuse"]:
+        if exp["must_refuse"] and not (exp["may_wait"] and not s.closed):
             res.v("no_error_response", shape, "input must be refused but no response was produced (closed=%s, end=%s); limits header=%d body=%d d=%d; input %r" % (
                 s.closed, k.end_reason, sc["max_header"], sc["max_body"], sc["d"], stream[:100]))
         elif not exp["may_wait"] and not exp.get("anything") and not s.closed:
